@@ -1,0 +1,21 @@
+//go:build verif
+
+// Contracts for the server-side stream reader, read by /verif/govc.
+package streamreader
+
+// The incoming stream ends with io.EOF when the client closed it cleanly; any other Recv
+// error means the upload was aborted (context cancelled, connection lost).
+//@ iface Stream.Recv
+//@ iface Request.GetChunk
+
+// Read must never report a clean end of content (io.EOF) after the stream has failed:
+// whoever copies from this reader would otherwise store a truncated upload as complete.
+//@ func (*reader).Read
+//@   requires wf:       r != nil && r.stream != nil && r.buf.blen >= 0
+//@   ensures  noswallow: r.err != nil && !is(r.err, io.EOF) && result1 != nil ==> result1 == r.err
+//@   ensures  eof:       is(result1, io.EOF) ==> (r.err != nil && is(r.err, io.EOF)) || len(p) == 0 || result1 == r.err
+//@   ensures  sticky:    old(r.err) != nil ==> r.err == old(r.err)
+//@   ensures  drained:   result1 != nil && len(p) > 0 ==> r.buf.blen == 0
+//@ loop (*reader).Read#1
+//@   invariant len:    r.buf.blen >= 0
+//@   invariant sticky: old(r.err) != nil ==> r.err == old(r.err)
